@@ -14,34 +14,37 @@ open TV.Tracked
 def C02_full (flagged : List String) : Prop :=
   ∀ (h : Heap) (ops : List Op), Fresh h → Fresh (run flagged h ops)
 
+/-- every array object lives on an existing buffer (true of the initial heap and kept by every step) -/
+def WFHeap (h : Heap) : Prop := ∀ o ∈ h.objs, o.buf < h.bufs.length
+
 /-- one step keeps every object fresh, provided a write is safe (flagged method of the written tracked
     object, no other tracked observer of the written cells holds a clean memo) -/
-theorem C02_step_fresh (flagged : List String) (h : Heap) (op : Op) (hf : Fresh h)
+theorem C02_step_fresh (flagged : List String) (h : Heap) (op : Op) (hf : Fresh h) (hw : WFHeap h)
     (hs : (match op with
       | .write i route cells _ => SafeWrite flagged h i route cells
-      | _ => true) = true) : Fresh (step flagged h op).2 := by
-  sorry
+      | _ => true) = true) : Fresh (step flagged h op).2 ∧ WFHeap (step flagged h op).2 :=
+  ⟨step_fresh_wf flagged h op hf hw hs, step_wf flagged h op hw⟩
 
 /-- **partial form of the property (all programs of any length)**: if every write of the program is
     tracked for every observer at the point where it happens, then after the program every tracked
     object's hash is the hash of its current bytes -/
 theorem C02_hash_correct_partial (flagged : List String) (h : Heap) (ops : List Op) (hf : Fresh h)
-    (hs : SafeProgram flagged h ops = true) : Fresh (run flagged h ops) := by
-  sorry
+    (hw : WFHeap h) (hs : SafeProgram flagged h ops = true) : Fresh (run flagged h ops) :=
+  run_fresh_wf flagged h ops hf hw hs
 
 /-- what `Fresh` buys: a hash read returns the current bytes of the object (so equal bytes give equal
     hashes and unchanged bytes an unchanged hash), and leaves the heap fresh -/
 theorem C02_hash_returns_bytes (flagged : List String) (h : Heap) (i : Nat) (o : Obj) (hf : Fresh h)
     (ho : h.objs[i]? = some o) (ht : o.tracked = true) :
     (step flagged h (.hash i)).1 = some (bytesOf h o) ∧ Fresh (step flagged h (.hash i)).2 ∧
-    (step flagged h (.hash i)).2.bufs = h.bufs := by
-  sorry
+    (step flagged h (.hash i)).2.bufs = h.bufs :=
+  hash_returns_bytes flagged h i o hf ho ht
 
 /-- operations that do not write leave every buffer unchanged (hence every hash of unchanged bytes) -/
 theorem C02_nonwriting_keeps_bytes (flagged : List String) (h : Heap) (op : Op)
     (hop : ∀ i r c v, op ≠ .write i r c v) (j : Nat) (hj : j < h.bufs.length) :
-    (step flagged h op).2.bufs[j]? = h.bufs[j]? := by
-  sorry
+    (step flagged h op).2.bufs[j]? = h.bufs[j]? :=
+  nonwriting_bufs flagged h op hop j hj
 
 /-- (G) every in-place method / operator of ndarray is overridden to set the flag in the current source -/
 theorem C02_flagged_complete :
@@ -59,18 +62,19 @@ def h0 : Heap := { bufs := [[1, 2, 3, 4]], objs := [⟨0, [0, 1, 2, 3], true, tr
 theorem C02_stale_held_view :
     let ops : List Op := [.view 0 [0, 1] true, .hash 0, .write 1 (.method "__setitem__") [0] [99], .hash 0]
     ¬ Fresh (run TV.Generated.c02Flagged h0 ops) := by
-  sorry
+  decide
 
 /-- a numpy function writing into the array without calling an override (`np.copyto`, ufunc `out=`,
     `ufunc.at`, `.flat[...] =`, `clip(out=)`): stale -/
 theorem C02_stale_function_route :
     let ops : List Op := [.hash 0, .write 0 (.func "copyto") [0] [99]]
     ¬ Fresh (run TV.Generated.c02Flagged h0 ops) := by
-  sorry
+  decide
 
 /-- hence the full statement is false for the flagged list of the current source -/
 theorem C02_full_is_false : ¬ C02_full TV.Generated.c02Flagged := by
-  sorry
+  intro hfull
+  exact C02_stale_function_route (hfull h0 _ (by decide))
 
 /-! non-vacuity of the partial theorem: a safe program with views, copies and writes -/
 example : SafeProgram TV.Generated.c02Flagged h0
